@@ -103,17 +103,30 @@ def eventDone (expectPw : Bool) (p l : Level) : Reply → Bool
   | .prompt keys _ => keys.contains p.pat || keys.contains l.pat
   | .silent => false
 
+/-- did the read of an interact event end on one of `interaction_complete_patterns` rather than on the event's
+    own expected response (`BaseChannel._interaction_complete`; in `_escalate` the complete patterns are the
+    previous and the new level's prompt, event 1 expects the password prompt) -/
+def endedOnComplete : Reply → Bool
+  | .prompt _ _ => true
+  | _ => false
+
+/-- the second event of the escalation dialogue: (auth_secondary, new level's pattern, hidden) -/
+def escalateSecond (c : Cfg) (d : Dev σ) (t : Table) (ch : Chan σ) (l p : Level) : Chan σ × Outcome :=
+  match io d t ch c.secondary with
+  | (ch, none) => (ch, .connErr)
+  | (ch, some r2) => if eventDone false p l r2 then (ch, .ok) else (timedOut ch, .authFail)
+
 /-- the authenticated branch of `_escalate` (sync_driver.py:112-127): `send_interactive` with the events
     (escalate, escalate_prompt, False), (auth_secondary, pattern, True); a timeout becomes
-    ScrapliAuthenticationFailed -/
+    ScrapliAuthenticationFailed.  `send_inputs_interact` leaves the event loop when event 1 was answered by one
+    of the completion patterns (`Gen.Priv.interactBreaksOnComplete`, from the AST): then no password is typed. -/
 def escalateAuth (c : Cfg) (d : Dev σ) (t : Table) (ch : Chan σ) (l p : Level) : Chan σ × Outcome :=
   match io d t ch l.esc with
   | (ch, none) => (ch, .connErr)
   | (ch, some r1) =>
     if eventDone true p l r1 then
-      match io d t ch c.secondary with
-      | (ch, none) => (ch, .connErr)
-      | (ch, some r2) => if eventDone false p l r2 then (ch, .ok) else (timedOut ch, .authFail)
+      if Gen.Priv.interactBreaksOnComplete && endedOnComplete r1 then (ch, .ok)
+      else escalateSecond c d t ch l p
     else (timedOut ch, .authFail)
 
 /-- `_escalate` (sync_driver.py:93-127) -/
